@@ -942,9 +942,9 @@ func (c *MJSectionComponent) getInnerContentWidth() int {
 
 	var spacing *styles.Spacing
 	if paddingValue != "" {
-		if parsed, err := styles.ParseSpacing(paddingValue); err == nil && parsed != nil {
-			spacing = parsed
-			effectiveWidth -= int(parsed.Left + parsed.Right)
+		if left, right, ok := styles.ParseHorizontalSpacing(paddingValue); ok {
+			spacing = &styles.Spacing{Left: left, Right: right}
+			effectiveWidth -= int(left + right)
 		}
 	}
 
